@@ -488,3 +488,327 @@ Qed.
 Lemma subworkflow_not_ok r st :
   sres_ok (wr_overall r) = false -> subworkflow_result (WDone r) st = Finished (wr_overall r).
 Proof. intros H. unfold subworkflow_result. now rewrite H. Qed.
+
+(* ================================================================== *)
+(* PART 2 — one ResourceFunction against a faulty API                  *)
+(* ================================================================== *)
+
+Lemma with_live_same s : with_live s (s_live s) = s.
+Proof. destruct s; reflexivity. Qed.
+
+Lemma with_live_live s v : s_live (with_live s v) = v.
+Proof. reflexivity. Qed.
+
+(* the call lists of a fault-free pass: nothing, the GET, or the GET and one mutation *)
+Lemma rf_calls_shape s r calls :
+  reconcile_rf s = (r, calls) ->
+  calls = [] \/
+  (exists pl ns nm, calls = [CGet pl ns nm]) \/
+  (exists pl ns nm m, calls = [CGet pl ns nm; m] /\
+     ((exists nsx p, m = CPost pl nsx p /\ s_live s = None) \/
+      (exists nsx l, m = CDelete pl nsx nm /\ s_live s = Some l) \/
+      (exists nsx p l, m = CPatch pl nsx nm p /\ s_live s = Some l))).
+Proof.
+  intros E. pose proof (rf_calls_sub s) as Hs. rewrite E in Hs. cbn [snd] in Hs.
+  destruct Hs as [->| ->]; [now left|].
+  unfold calls_of. pose proof (krm_has_shape s) as Hsh.
+  destruct (reconcile_krm s) as [rk ck]. cbn [snd].
+  inversion Hsh; subst; [now left|right; left; eauto|right; right..];
+    do 4 eexists; (split; [reflexivity|]).
+  - left. eauto.
+  - right; left. eauto.
+  - right; left. eauto.
+  - right; right. eauto.
+Qed.
+
+Lemma get_view_sees f actual v :
+  get_view f actual = VSees v -> v = actual \/ v = None.
+Proof.
+  destruct f as [|a|code a| |]; cbn; intros H; try discriminate H.
+  - inversion H; now left.
+  - destruct (code =? 404)%Z; [inversion H; now right|discriminate H].
+Qed.
+
+Definition cluster_after (s : scenario) (fp : fplan) : option json := snd (reconcile_rf_faulty s fp).
+Definition result_of (s : scenario) (fp : fplan) : ffres := fst (fst (reconcile_rf_faulty s fp)).
+Definition calls_made (s : scenario) (fp : fplan) : list call := snd (fst (reconcile_rf_faulty s fp)).
+
+Lemma post_effect_exists c r f a obj : snd (post_effect c r f (Some a) obj) = Some a.
+Proof. destruct f as [|[|]|code [|]| |]; cbn; try reflexivity; destruct (code =? 409)%Z; reflexivity. Qed.
+
+Lemma post_effect_absent c r f obj :
+  snd (post_effect c r f None obj) = None \/ snd (post_effect c r f None obj) = Some obj.
+Proof. destruct f as [|[|]|code [|]| |]; cbn; auto. Qed.
+
+Lemma mut_effect_cases r f a m :
+  snd (mut_effect r f (Some a) m) = Some a \/ snd (mut_effect r f (Some a) m) = apply_call (Some a) m.
+Proof. destruct f as [|[|]|code [|]| |]; cbn; auto. Qed.
+
+(* every cluster content a faulty pass can leave is the content before the
+   pass or the content the fault-free pass would have produced: each call is
+   applied fully or not at all, and a pass makes at most one mutating call *)
+Lemma faulty_state_cases s fp :
+  cluster_after s fp = s_live s \/ cluster_after s fp = snd (pass_ok s).
+Proof.
+  unfold cluster_after, reconcile_rf_faulty, pass_ok.
+  destruct (reconcile_rf s) as [r0 calls0] eqn:E0.
+  destruct calls0 as [|g rest0]; [now left|].
+  destruct (get_view (fp_get fp) (s_live s)) as [v| | |] eqn:Ev; try (now left).
+  apply get_view_sees in Ev.
+  assert (v = s_live s \/ (v = None /\ exists a, s_live s = Some a)) as [->|[-> [a Ha]]].
+  { destruct Ev as [->| ->]; [now left|]. destruct (s_live s) eqn:El; [right; eauto|now left]. }
+  - rewrite with_live_same, E0.
+    destruct (rf_calls_shape s r0 _ E0) as [H|[(pl & ns & nm & H)|(pl & ns & nm & m & H & Hm)]];
+      try discriminate H; inversion H; subst; [now left|].
+    destruct Hm as [(nsx & p & -> & Hl)|[(nsx & l & -> & Hl)|(nsx & p & l & -> & Hl)]]; rewrite Hl.
+    + destruct (post_effect (s_cfg s) r0 (fp_mut fp) None (body p)) as [fr after] eqn:Ep.
+      pose proof (post_effect_absent (s_cfg s) r0 (fp_mut fp) (body p)) as Hc. rewrite Ep in Hc.
+      cbn [snd apply_calls fold_left apply_call] in *. destruct Hc as [->| ->]; auto.
+    + destruct (mut_effect r0 (fp_mut fp) (Some l) (CDelete pl nsx nm)) as [fr after] eqn:Ep.
+      pose proof (mut_effect_cases r0 (fp_mut fp) l (CDelete pl nsx nm)) as Hc. rewrite Ep in Hc.
+      cbn [snd apply_calls fold_left apply_call] in *. destruct Hc as [->| ->]; auto.
+    + destruct (mut_effect r0 (fp_mut fp) (Some l) (CPatch pl nsx nm p)) as [fr after] eqn:Ep.
+      pose proof (mut_effect_cases r0 (fp_mut fp) l (CPatch pl nsx nm p)) as Hc. rewrite Ep in Hc.
+      cbn [snd apply_calls fold_left apply_call] in *. destruct Hc as [->| ->]; auto.
+  - (* the GET was answered 404 although the object exists: a POST follows and is refused *)
+    destruct (reconcile_rf (with_live s None)) as [r calls] eqn:E1.
+    destruct (rf_calls_shape _ r calls E1) as [->|[(pl & ns & nm & ->)|(pl & ns & nm & m & -> & Hm)]];
+      try (now left).
+    rewrite with_live_live in Hm.
+    destruct Hm as [(nsx & p & -> & _)|[(nsx & l & _ & Hl)|(nsx & p & l & _ & Hl)]]; try discriminate Hl.
+    rewrite Ha.
+    destruct (post_effect (s_cfg s) r (fp_mut fp) (Some a) (body p)) as [fr after] eqn:Ep.
+    pose proof (post_effect_exists (s_cfg s) r (fp_mut fp) a (body p)) as Hc. rewrite Ep in Hc.
+    cbn [snd] in *. left. exact Hc.
+Qed.
+
+(* "an exception / HTTP error BEFORE the effect leaves the cluster unchanged" *)
+Definition before_fault (f : fault) : bool :=
+  match f with FExc false | FSrv _ false | FHang | FCancelled => true | _ => false end.
+(* "an exception AFTER the effect" *)
+Definition after_fault (f : fault) : bool :=
+  match f with FExc true | FSrv _ true => true | _ => false end.
+
+Lemma fault_before_unchanged s fp :
+  before_fault (fp_mut fp) = true -> cluster_after s fp = s_live s.
+Proof.
+  intros Hb. unfold cluster_after, reconcile_rf_faulty.
+  destruct (reconcile_rf s) as [r0 calls0] eqn:E0.
+  destruct calls0 as [|g rest0]; [reflexivity|].
+  destruct (get_view (fp_get fp) (s_live s)) as [v| | |] eqn:Ev; try reflexivity.
+  destruct (reconcile_rf (with_live s v)) as [r calls] eqn:E1.
+  destruct calls as [|g' [|m rest]]; try reflexivity.
+  destruct m; destruct (fp_mut fp) as [|[|]|code [|]| |]; try discriminate Hb; cbn; try reflexivity;
+    destruct (code =? 409)%Z; reflexivity.
+Qed.
+
+(* any fault on the GET alone: nothing is mutated unless the pass goes on to
+   a mutation (only after a 404, i.e. "absent") *)
+Lemma get_fault_unchanged s fp :
+  (forall a, fp_get fp <> FSrv 404 a) -> fp_get fp <> FNone -> cluster_after s fp = s_live s.
+Proof.
+  intros H404 Hn. unfold cluster_after, reconcile_rf_faulty.
+  destruct (reconcile_rf s) as [r0 calls0] eqn:E0.
+  destruct calls0 as [|g rest0]; [reflexivity|].
+  destruct (fp_get fp) as [|a|code a| |] eqn:Eg; cbn; try reflexivity; [congruence|].
+  destruct (code =? 404)%Z eqn:Ec; [|reflexivity].
+  apply Z.eqb_eq in Ec. subst. exfalso. eapply H404. reflexivity.
+Qed.
+
+(* "an exception after the effect = the effect happened": the cluster is
+   exactly where the fault-free pass would have left it *)
+Lemma fault_after_applied s fp :
+  fp_get fp = FNone -> after_fault (fp_mut fp) = true ->
+  cluster_after s fp = snd (pass_ok s).
+Proof.
+  intros Hg Ha. unfold cluster_after, reconcile_rf_faulty, pass_ok.
+  destruct (reconcile_rf s) as [r0 calls0] eqn:E0.
+  destruct calls0 as [|g rest0]; [reflexivity|].
+  rewrite Hg. cbn [get_view]. rewrite with_live_same, E0.
+  destruct (rf_calls_shape s r0 _ E0) as [H|[(pl & ns & nm & H)|(pl & ns & nm & m & H & Hm)]];
+    try discriminate H; inversion H; subst; [reflexivity|].
+  destruct Hm as [(nsx & p & -> & Hl)|[(nsx & l & -> & Hl)|(nsx & p & l & -> & Hl)]]; rewrite Hl;
+    destruct (fp_mut fp) as [|[|]|code [|]| |]; try discriminate Ha; reflexivity.
+Qed.
+
+(* a fault-free plan is the fault-free pass *)
+Lemma no_fault_same s :
+  reconcile_rf_faulty s {| fp_get := FNone; fp_mut := FNone |} =
+  (FRes (fst (reconcile_rf s)), snd (reconcile_rf s), snd (pass_ok s)).
+Proof.
+  unfold reconcile_rf_faulty, pass_ok. cbn [fp_get fp_mut get_view].
+  destruct (reconcile_rf s) as [r0 calls0] eqn:E0. cbn [fst snd].
+  destruct calls0 as [|g rest0]; [reflexivity|].
+  rewrite with_live_same, E0.
+  destruct (rf_calls_shape s r0 _ E0) as [H|[(pl & ns & nm & H)|(pl & ns & nm & m & H & Hm)]];
+    try discriminate H; inversion H; subst; [reflexivity|].
+  destruct Hm as [(nsx & p & -> & Hl)|[(nsx & l & -> & Hl)|(nsx & p & l & -> & Hl)]]; rewrite Hl;
+    reflexivity.
+Qed.
+
+(* ---------- the result of a pass that hit a fault ---------- *)
+
+Definition is_fault_error (r : ffres) : bool :=
+  match r with
+  | FRes (FStop (StopRetry _ _)) | FRes (FStop (StopPermFail _)) | FRes FRaise
+  | FHung | FCancelRaised => true
+  | _ => false
+  end.
+
+Lemma post_effect_fault_error c r f actual obj :
+  f <> FNone -> is_fault_error (fst (post_effect c r f actual obj)) = true.
+Proof.
+  intros Hf. destruct f as [|[|]|code [|]| |]; try congruence; destruct actual; cbn;
+    try reflexivity; destruct (code =? 409)%Z; reflexivity.
+Qed.
+
+Lemma mut_effect_fault_error r f actual m :
+  f <> FNone -> is_fault_error (fst (mut_effect r f actual m)) = true.
+Proof.
+  intros Hf. destruct f as [|[|]|code [|]| |]; try congruence; destruct actual; reflexivity.
+Qed.
+
+(* a pass that consumed a fault never returns a value (or a skip): it is Retry,
+   PermFail, an escaping exception, or stuck — the one exception being a 404
+   on the GET, which IS the API's way of saying "absent" *)
+Lemma fault_is_error s fp :
+  fault_fired s fp = true -> (forall a, fp_get fp <> FSrv 404 a) ->
+  is_fault_error (result_of s fp) = true.
+Proof.
+  unfold fault_fired, result_of, reconcile_rf_faulty. intros Hf H404.
+  destruct (reconcile_rf s) as [r0 calls0] eqn:E0.
+  destruct calls0 as [|g rest0]; [discriminate Hf|].
+  destruct (fp_get fp) as [|a|code a| |] eqn:Eg; cbn [get_view] in *; try reflexivity.
+  - rewrite with_live_same, E0 in *.
+    destruct (rf_calls_shape s r0 _ E0) as [H|[(pl & ns & nm & H)|(pl & ns & nm & m & H & Hm)]];
+      try discriminate H; inversion H; subst; [discriminate Hf|].
+    assert (fp_mut fp <> FNone) as Hm'.
+    { intros E. destruct Hm as [(nsx & p & -> & _)|[(nsx & l & -> & _)|(nsx & p & l & -> & _)]];
+        [destruct (post_effect _ _ _ _ _)|destruct (mut_effect _ _ _ _)..]; cbn in Hf; rewrite E in Hf;
+        discriminate Hf. }
+    destruct Hm as [(nsx & p & -> & _)|[(nsx & l & -> & _)|(nsx & p & l & -> & _)]].
+    + pose proof (post_effect_fault_error (s_cfg s) r0 _ (s_live s) (body p) Hm') as He.
+      destruct (post_effect _ _ _ _ _); exact He.
+    + pose proof (mut_effect_fault_error r0 _ (s_live s) (CDelete pl nsx nm) Hm') as He.
+      destruct (mut_effect _ _ _ _); exact He.
+    + pose proof (mut_effect_fault_error r0 _ (s_live s) (CPatch pl nsx nm p) Hm') as He.
+      destruct (mut_effect _ _ _ _); exact He.
+  - destruct (code =? 404)%Z eqn:Ec; [|reflexivity].
+    apply Z.eqb_eq in Ec. subst. exfalso. eapply H404. reflexivity.
+Qed.
+
+(* ... and the workflow layer reports such a step as Retry or PermFail *)
+Lemma fault_error_classified r :
+  is_fault_error r = true ->
+  exists o, classify (tend_of r) = WDone (UOut o) /\ is_error o = true.
+Proof.
+  destruct r as [[[t|d t|t|t]|v|]| |]; cbn; intros H; try discriminate H;
+    try (eexists; split; reflexivity);
+    try (destruct v; discriminate H).
+Qed.
+
+(* ---------- several passes ---------- *)
+
+Lemma state_after_add s mf n k c :
+  state_after s mf n (state_after s mf k c) = state_after s mf (k + n) c.
+Proof. revert c; induction k as [|k IH]; intros c; cbn; [reflexivity|apply IH]. Qed.
+
+Lemma faulty_pass_at_cases s mf fp c :
+  snd (faulty_pass_at s mf fp c) = c \/ snd (faulty_pass_at s mf fp c) = state_after s mf 1 c.
+Proof.
+  unfold faulty_pass_at. cbn [state_after]. unfold pass_at.
+  pose proof (faulty_state_cases (at_state s mf c) fp) as H. unfold cluster_after in H.
+  destruct (reconcile_rf_faulty (at_state s mf c) fp) as [[r calls] c']. cbn [snd] in *. exact H.
+Qed.
+
+(* after any prefix of passes in which faults occur the cluster is ON the
+   trajectory of the run that never saw a fault, not further than one step per pass *)
+Lemma faulty_prefix_on_trajectory s mf fps : forall c,
+  exists k, k <= List.length fps /\ faulty_prefix s mf fps c = state_after s mf k c.
+Proof.
+  induction fps as [|fp r IH]; intros c; [exists 0; split; [lia|reflexivity]|].
+  cbn [faulty_prefix List.length].
+  destruct (faulty_pass_at_cases s mf fp c) as [->| ->].
+  - destruct (IH c) as (k & Hk & ->). exists k. split; [lia|reflexivity].
+  - destruct (IH (state_after s mf 1 c)) as (k & Hk & ->). exists (S k). split; [lia|].
+    rewrite state_after_add. reflexivity.
+Qed.
+
+(* the fault-free run from c0 is quiescent from pass N on: content c*, result r* *)
+Definition quiescent (s : scenario) (mf : option json -> bool) (c0 : option json) (N : nat)
+           (cstar : option json) (rstar : fres) : Prop :=
+  forall n, N <= n -> state_after s mf n c0 = cstar /\ result_at s mf n c0 = rstar.
+
+(* recover_rf_partial *)
+Lemma recover_rf s mf c0 N cstar rstar :
+  quiescent s mf c0 N cstar rstar ->
+  forall fps n, N <= n ->
+    state_after s mf n (faulty_prefix s mf fps c0) = cstar /\
+    result_at s mf n (faulty_prefix s mf fps c0) = rstar.
+Proof.
+  intros Hq fps n Hn. destruct (faulty_prefix_on_trajectory s mf fps c0) as (k & _ & ->).
+  unfold result_at. rewrite state_after_add. apply (Hq (k + n)). lia.
+Qed.
+
+Lemma fixpoint_forever s mf c :
+  snd (pass_at s mf c) = c -> forall n, state_after s mf n c = c.
+Proof. intros H n. induction n as [|n IH]; cbn; [reflexivity|]. now rewrite H. Qed.
+
+Lemma quiescent_from_fixpoint s mf c0 N :
+  snd (pass_at s mf (state_after s mf N c0)) = state_after s mf N c0 ->
+  quiescent s mf c0 N (state_after s mf N c0) (fst (pass_at s mf (state_after s mf N c0))).
+Proof.
+  intros Hfix n Hn. replace n with (N + (n - N)) by lia.
+  unfold result_at. rewrite <- state_after_add. rewrite (fixpoint_forever s mf _ Hfix). split; reflexivity.
+Qed.
+
+(* C04's met_no_mutation, re-proved here for the fault model: an object that
+   meets the target (comparator says match) and carries the owner reference is
+   left alone, so it is a fixpoint of fault-free reconciliation *)
+Lemma met_is_fixpoint s mf l :
+  c_delete_if_exists (s_cfg s) = false ->
+  mf (Some l) = true -> owner_ok s l = true ->
+  snd (pass_at s mf (Some l)) = Some l.
+Proof.
+  intros Hd Hm Ho. unfold pass_at, pass_ok.
+  destruct (reconcile_rf (at_state s mf (Some l))) as [r calls] eqn:E.
+  cbn [s_live at_state snd].
+  destruct (rf_calls_shape _ r calls E) as [->|[(pl & ns & nm & ->)|(pl & ns & nm & m & -> & Hx)]];
+    try reflexivity.
+  exfalso.
+  (* a second call would need: no match, or no owner reference *)
+  unfold reconcile_rf in E. cbn [at_state s_pre s_locals_err s_post s_return] in E.
+  destruct (s_pre s); [inversion E|]. destruct (s_locals_err s); [inversion E|].
+  assert (snd (reconcile_krm (at_state s mf (Some l))) = [CGet pl ns nm; m]) as Hk.
+  { destruct (reconcile_krm (at_state s mf (Some l))) as [[st|o|] ck]; cbn [snd];
+      [inversion E; reflexivity| |inversion E; reflexivity].
+    destruct (s_post s); inversion E; reflexivity. }
+  clear E. unfold reconcile_krm in Hk. cbn [at_state s_cfg s_name s_lookup s_live s_match s_owner_ns s_owner_ref] in Hk.
+  unfold owner_ok in Ho.
+  destruct (s_name s) as [| | |name nsv]; try discriminate Hk.
+  destruct ((match nsv with None => true | Some _ => false end) && c_namespaced (s_cfg s)); [discriminate Hk|].
+  destruct (match c_plural (s_cfg s) with Some p => Some p | None => s_lookup s end); [|discriminate Hk].
+  rewrite Hd in Hk.
+  destruct (c_readonly (s_cfg s)); [discriminate Hk|].
+  match type of Hk with context [materialize ?a ?b] => destruct (materialize a b) end; [|discriminate Hk].
+  rewrite Hm in Hk. cbn [andb] in Hk.
+  destruct (c_owned (s_cfg s) && opt_str_eqb (s_owner_ns s) nsv); [rewrite Ho in Hk|]; discriminate Hk.
+Qed.
+
+(* recovery, explicit form: if the fault-free run from c0 reaches, after N
+   passes, an object that meets the target (C04: N = 1 for update policy
+   `patch` from every start, N = 1 for a creation), then after ANY prefix of
+   faulty passes every run of at least N further fault-free passes ends at that
+   same object with that same result *)
+Lemma recover_rf_met s mf c0 N l :
+  c_delete_if_exists (s_cfg s) = false ->
+  state_after s mf N c0 = Some l -> mf (Some l) = true -> owner_ok s l = true ->
+  forall fps n, N <= n ->
+    state_after s mf n (faulty_prefix s mf fps c0) = Some l /\
+    result_at s mf n (faulty_prefix s mf fps c0) = fst (pass_at s mf (Some l)).
+Proof.
+  intros Hd Hs Hm Ho fps n Hn.
+  pose proof (met_is_fixpoint s mf l Hd Hm Ho) as Hfix.
+  pose proof (quiescent_from_fixpoint s mf c0 N) as Hq. rewrite Hs in Hq.
+  exact (recover_rf s mf c0 N (Some l) _ (Hq Hfix) fps n Hn).
+Qed.
